@@ -87,6 +87,12 @@ def catalogue():
         "scan-mutable": mv + [A.scan(v("fmv"), ("a", [A.node(v("f_n"))]))],
         "scan-let-chain": mv + [A.let(v("f_c1"), v("fmv")), A.let(v("f_c2"), v("f_c1")), A.scan(v("f_c2"), ("a", [A.node(v("f_n"))]))],
         "scan-call-of-mutable": mv + [A.scan(A.call("format", s("{}"), v("fmv")), ("a", [A.node(v("f_n"))]))],
+        "scan-call-nonlocal-first-arg": mv + [A.scan(A.call("format", s("{}{}"), v("fmv"), s("k")), ("a", [A.node(v("f_n"))]))],
+        "scan-call-nonlocal-middle-arg": mv + [A.scan(A.call("replace", v("fmv"), s("a"), s("b")), ("a", [A.node(v("f_n"))]))],
+        "if-call-nonlocal-first-arg": mv + [A.iff(([A.cond("bool", A.call("eq", v("fmv"), s("ab")))], [A.node(v("f_n"))]))],
+        "let-of-call-nonlocal-first-arg": mv + [A.let(v("f_k"), A.call("format", s("{}{}"), v("fmv"), s("z"))), A.scan(v("f_k"), ("a", [A.node(v("f_n"))]))],
+        "for-list-of-call-nonlocal-first-arg": mv + [A.forin("f_x", A.lst(A.call("format", s("{}{}"), v("fmv"), s("z"))), [A.node(v("f_n"))])],
+        "var-used-before-later-set": [A.mut(v("f_l"), A.lst(i(1))), A.forin("f_o", A.lst(i(1), i(2)), [A.forin("f_x", v("f_l"), [A.node(v("f_n"))]), A.assign(v("f_l"), A.lst(i(3)))])],
         "scan-scoped": [A.scan(A.svar(A.cap("__ANYCAP__"), "f_sv"), ("a", [A.node(v("f_n"))]))],
         "if-mutable": [A.mut(v("f_b"), A.true()), A.iff(([A.cond("bool", v("f_b"))], [A.node(v("f_n"))]))],
         "if-second-condition-nonlocal": [A.mut(v("f_b"), A.true()), A.iff(([A.cond("bool", A.true()), A.cond("bool", v("f_b"))], [A.node(v("f_n"))]))],
@@ -114,7 +120,10 @@ def catalogue():
     }
 
 
-FILE_LEVEL = ["duplicate-global", "unused-capture", "underscore-capture-unused-ok", "capture-in-shorthand", "shorthand-ok"]
+FILE_LEVEL = ["duplicate-global", "unused-capture", "underscore-capture-unused-ok", "capture-in-shorthand", "shorthand-ok",
+              "capture-in-shorthand-direct", "capture-in-shorthand-set", "capture-in-shorthand-listc-elem", "capture-in-shorthand-listc-value",
+              "capture-in-shorthand-setc-elem", "capture-in-shorthand-setc-value", "capture-in-shorthand-scope", "capture-in-shorthand-call",
+              "capture-in-shorthand-nested", "capture-in-second-shorthand-attr"]
 
 
 def apply_file_level(prog, name):
@@ -126,6 +135,22 @@ def apply_file_level(prog, name):
         prog["stanzas"].append(A.stanza("(identifier) @_f_unused ", [A.node(A.var("f_n"))]))
     elif name == "capture-in-shorthand":
         prog["shorthands"].append(A.shorthand("f_sh", "f_v", [A.attr("x", A.var("f_v")), A.attr("y", A.lst(A.string("k"), A.cap("name")))]))
+    elif name.startswith("capture-in-shorthand-") or name == "capture-in-second-shorthand-attr":
+        c, fv = A.cap("name"), A.var("f_v")
+        body = {
+            "capture-in-shorthand-direct": c,
+            "capture-in-shorthand-set": A.st(A.integer(1), c),
+            "capture-in-shorthand-listc-elem": A.listc(c, "f_y", fv),
+            "capture-in-shorthand-listc-value": A.listc(A.var("f_y"), "f_y", c),
+            "capture-in-shorthand-setc-elem": A.setc(c, "f_y", fv),
+            "capture-in-shorthand-setc-value": A.setc(A.var("f_y"), "f_y", c),
+            "capture-in-shorthand-scope": A.svar(c, "sv"),
+            "capture-in-shorthand-call": A.call("format", A.string("{}"), c),
+            "capture-in-shorthand-nested": A.lst(A.call("f", A.st(A.listc(A.svar(A.call("g", c), "x"), "f_y", fv)))),
+            "capture-in-second-shorthand-attr": c,
+        }[name]
+        attrs = [A.attr("x", fv), A.attr("y", body)] if name == "capture-in-second-shorthand-attr" else [A.attr("y", body)]
+        prog["shorthands"].append(A.shorthand("f_sh", "f_v", attrs))
     elif name == "shorthand-ok":
         prog["shorthands"].append(A.shorthand("f_sh", "f_v", [A.attr("x", A.var("f_v")), A.attr("y", A.var("not_checked"))]))
 
